@@ -21,7 +21,7 @@ import types
 
 from .. import common, tlc, vsched
 from ..vsched import core as vcore
-from ..vsched import vqueue, vthreading
+from ..vsched import vqueue, vthreading, vtime
 
 NEG = [0xFF, 0x05, 0x01]
 URI = 'radio://0/80/2M'
@@ -195,6 +195,8 @@ class World:
         self.ncfq = 0
         self.nrcv = 0               # non-null packets received
         self.next_outcome = None    # steps mode: outcome of the next transfer
+        self.next_delay = 0         # steps mode: (virtual) seconds the next dongle exchange takes
+        self.stats = 0              # radio_link_statistics callbacks received
         self.free = None            # free mode: dict(outcomes, cfq_at, gates, ...)
         self.drv = None
         self.sched = None
@@ -241,11 +243,15 @@ class World:
 
     def transfer(self, frame):
         vthreading._do(vcore.Op('radio.tx', self, self._ready, lambda: None))
+        d = 0
         if self.free is None:
             o = self.next_outcome
             self.next_outcome = None
+            d, self.next_delay = self.next_delay, 0
         else:
             o = self._free_outcome(frame)
+        if d:
+            vtime.sleep(d)          # USB stall: the write/read pair may take up to 2 x 1 s
         service = (not self.data_phase) and len(frame) == 3 and mask(frame[0]) == 0xF3 and frame[1] == 5
         if not service:
             self.data_phase = True
@@ -257,7 +263,7 @@ class World:
         else:
             ack, _new = self.peer.rx(frame)
             rep = ([1] + ack) if o == 'A' else [0]
-        self.log({'e': 'tx', 'f': list(frame), 'o': o, 'rep': list(rep), 'st': st})
+        self.log({'e': 'tx', 'f': list(frame), 'o': o, 'rep': list(rep), 'st': st, 'd': int(round(d * 1000))})
         self.ntx += 1
         if not service:
             self.tail_acked = self.tail_acked + 1 if o == 'A' else 0
@@ -374,7 +380,10 @@ def execute(sc, mutant=None):
 
             def on_err(msg):
                 w.log({'e': 'err', 'm': 'loop' if 'Too many packets lost' in str(msg) else 'other'})
-            drv.connect(URI, None, on_err)
+
+            def on_stats(d):        # the real RadioLinkStatistics runs in the loop and reports here
+                w.stats += 1
+            drv.connect(URI, on_stats, on_err)
             w.radio_rec = drv._thread._vs_rec
             w.shared_rec = rd.RadioManager._radios[0]._vs_rec
             if 'steps' in sc:
@@ -449,12 +458,14 @@ def _run_steps(w, s, sc, info):
         w.drv.restart()
         w.log({'e': 'restart'})
 
-    def run(policy, until):
+    def run(policy, until, cap=4000):
+        # every macro-step has its own scheduler-step budget: code that never gets there must not spin
+        s0 = s.steps
         try:
-            r = s.run(until=until, policy=policy)
+            r = s.run(until=lambda: until() or s.steps - s0 > cap, policy=policy)
         except _Stuck:
             return False
-        return r == 'until'
+        return r == 'until' and until()
 
     # settle: radio loop parked before its first transmission
     if not run(radio, lambda: w.parked_at() == 'tx'):
@@ -486,6 +497,7 @@ def _run_steps(w, s, sc, info):
             else:
                 n0 = w.ntx
                 w.next_outcome = st[1]
+                w.next_delay = st[2] if len(st) > 2 else 0
                 ok = run(radio, lambda: w.ntx == n0 + 1 and w.parked_at() is not None)
         elif k == 'in':
             ok = w.parked_at() == 'put' and run(radio, lambda: w.parked_at() == 'get')
@@ -682,7 +694,8 @@ def _rewrite(rd, fn_name, old, new, cls_name='_RadioDriverThread'):
             raise common.MachineryError('mutant snippet for %s not found exactly once: %r' % (fn_name, o))
         src = src.replace(o, n)
     ns = {}
-    exec(compile(src, '<mutant %s>' % fn_name, 'exec'), rd.__dict__, ns)
+    import sys as _sys
+    exec(compile(src, '<mutant %s>' % fn_name, 'exec'), _sys.modules[cls.__module__].__dict__, ns)
     orig = cls.__dict__[fn_name]
     setattr(cls, fn_name, ns[fn_name])
     return lambda: setattr(cls, fn_name, orig)
@@ -714,6 +727,13 @@ MUTANTS = {
     # wrong for the second comm thread of the same driver object (pause()/restart())
     'nr_only_on_success': _m('run', ('self._has_safelink = True\n', '    self._link.needs_resending = not self._has_safelink\n'),
                              ('self._has_safelink = True\n            self._link.needs_resending = False\n', '')),
+    # the wait for the dongle's answer gives up after 1 s ("resend"): the late answer stays queued and every
+    # later exchange is handed the previous one's answer
+    'rsp_timeout': _m('send_packet', 'ack = self._rsp_queue.get()  # type: crazyradio._radio_ack',
+                      'try:\n        ack = self._rsp_queue.get(timeout=1)\n    except queue.Empty:\n        return None',
+                      '_SharedRadioInstance'),
+    # the statistics object reads the RSSI byte of a two-byte null packet: IndexError inside the loop
+    'stats_rssi_guard': _m('_update_rssi', 'len(ack.data) > 2', 'len(ack.data) > 1', 'RadioLinkStatistics'),
     # ack payload queued twice
     'queue_ack_twice': _m('run', 'self._in_queue.put(inPacket)', 'self._in_queue.put(inPacket)\n            if inPacket.port != 15:\n                self._in_queue.put(inPacket)'),
 }
@@ -741,9 +761,14 @@ def up_pk(i):
     return [((3 + i % 5) << 4) | 0x0C | (i % 4), i % 256, (i // 256) % 256]
 
 
+TAILS = [[1, 44], [], [1], [0, 9, 9]]      # what follows the header of an empty ack: RSSI, nothing, type only, other
+
+
 def dn_pk(j):
     if j % 3 == 2:          # header-only downlink packet
         return [((5 + j % 3) << 4) | (j % 4)]
+    if j % 11 == 7:         # a full radio payload (32 bytes)
+        return [((5 + j % 3) << 4) | (j % 4)] + [(j + i) % 256 for i in range(31)]
     return [((5 + j % 3) << 4) | (j % 4), (100 + j) % 256, (j // 256) % 256, 7]
 
 
@@ -752,12 +777,15 @@ class WordDirector:
     then a drain of acknowledged transmissions.  `pattern` fixes when the application submits,
     when the Crazyflie queues and when the application receives, relative to the radio loop."""
 
-    def __init__(self, neg, word, pattern, nup, ndown):
+    def __init__(self, neg, word, pattern, nup, ndown, opt=None):
         self.neg = list(neg)
         self.word = list(word)
         self.pattern = pattern
-        self.up = [up_pk(i + 1) for i in range(nup)]
-        self.dn = [dn_pk(j + 1) for j in range(ndown)]
+        self.up = [up_pk(i + 1) for i in range(nup)] if isinstance(nup, int) else [list(p) for p in nup]
+        self.dn = [dn_pk(j + 1) for j in range(ndown)] if isinstance(ndown, int) else [list(p) for p in ndown]
+        opt = opt or {}
+        self.stall = opt.get('stall')           # [main-loop transmission index, seconds]
+        self.stall_neg = opt.get('stall_neg')   # [start-up frame index, seconds]
         self.k = 0              # main-loop transmissions done
         self.negk = 0
         self.drain = None
@@ -809,10 +837,14 @@ class WordDirector:
         if in_neg:
             o = self.neg[self.negk]
             self.negk += 1
+            if self.stall_neg and self.stall_neg[0] == self.negk - 1:
+                return ['tx', o, self.stall_neg[1]]
             return ['tx', o]
         if self.k < len(self.word):
             o = self.word[self.k]
             self.k += 1
+            if self.stall and self.stall[0] == self.k - 1:
+                return ['tx', o, self.stall[1]]
             return ['tx', o]
         # drain: the rest of the packets, then acknowledged transmissions
         if self.dn:
@@ -839,7 +871,8 @@ def word_scenarios(tier):
             for pat, retries in (('eager', 12), ('late', 12), ('mid', 3)):
                 if pat == 'mid' and n > (6 if tier == 'quick' else 8):
                     continue
-                out.append({'mode': 'sl', 'tail': [1, 44], 'deny': DENY_REPLIES[0], 'retries': retries,
+                # the empty ack of the peer: RSSI ack / header only / type byte only
+                out.append({'mode': 'sl', 'tail': {'eager': [1, 44], 'late': [], 'mid': [1]}[pat], 'deny': DENY_REPLIES[0], 'retries': retries,
                             'gen': ['word', 'A', ''.join(word), pat, 3, 3]})
     return out
 
@@ -855,14 +888,56 @@ def startup_scenarios(tier, rng):
             words = rng.sample(words, 64)
         for wd in words:
             neg = ''.join(wd) + ('A' if j < NEGATT else '')
-            out.append({'mode': 'sl', 'tail': [1, 44] if j % 2 else [], 'deny': DENY_REPLIES[0], 'retries': 4 + j % 3,
+            out.append({'mode': 'sl', 'tail': TAILS[len(out) % 4], 'deny': DENY_REPLIES[0], 'retries': 4 + j % 3,
                         'gen': ['word', neg, tails[j % 3], ('eager', 'late', 'mid')[len(out) % 3], 2, 2]})
     for mode in ('nosl', 'deny'):
         for d in (DENY_REPLIES if mode == 'deny' else DENY_REPLIES[:1]):
             for neg in ('A' * 10, 'UAAAAAAAAA', 'LLLLLAAAAA', 'ALUALUALUA', 'U' * 10, 'L' * 10, 'UUUUUUUUUA'):
-                for tl in ([1, 44], []):
+                for tl in ([1, 44], [], [1]):
                     out.append({'mode': mode, 'tail': tl, 'deny': d, 'retries': 3,
                                 'gen': ['word', neg, 'AULLLAUUUUA', ('eager', 'late', 'mid')[len(out) % 3], 2, 2]})
+    return out
+
+
+def ack_scenarios(tier):
+    """The peer's ack alphabet: empty acks of every length 1..32 (header + 0..31 bytes, first tail byte
+    1 = the RSSI type, or other), and downlink packets of lengths 1, 2, 3, 32 on every port/channel
+    including the null / link-control headers (port 15), all of it acknowledged and some of it lost."""
+    out = []
+    for n in range(0, 32):
+        for first in (1, 0):
+            if n == 0 and first == 0:
+                continue
+            tail = ([first] + [(n * 7 + i) % 256 for i in range(n - 1)]) if n else []
+            out.append({'mode': 'sl', 'tail': tail, 'deny': DENY_REPLIES[0], 'retries': 12,
+                        'gen': ['word', 'A', 'AALAUA', ('eager', 'late', 'mid')[len(out) % 3], 3, 3]})
+    hdrs = [(port << 4) | ch for port in range(16) for ch in range(4)]
+    pk = []
+    for i, h in enumerate(hdrs):
+        for ln in (1, 2, 3, 32):
+            pk.append([h] + ([1] + [(h + k) % 256 for k in range(ln - 2)] if ln > 1 else []))
+    for b in range(0, len(pk), 8):
+        out.append({'mode': 'sl', 'tail': TAILS[(b // 8) % len(TAILS)], 'deny': DENY_REPLIES[0], 'retries': 12,
+                    'gen': ['word', 'A', 'ALAAUAAA', ('eager', 'late')[(b // 8) % 2], 2, pk[b:b + 8]]})
+    return out
+
+
+def stall_scenarios(tier, rng):
+    """One exchange with the dongle takes longer than a second of (virtual) time (USB stall; each of
+    the two USB transfers may take up to 1 s): at every position of every outcome word of length 5,
+    and during start-up."""
+    out = []
+    for word in itertools.product('AUL', repeat=5):
+        for at in range(5):
+            for pat in ('eager', 'late'):
+                out.append({'mode': 'sl', 'tail': TAILS[len(out) % 2], 'deny': DENY_REPLIES[0], 'retries': 12,
+                            'gen': ['word', 'A', ''.join(word) + 'AL', pat, 3, 3, {'stall': [at, (1.2, 1.9)[len(out) % 2]]}]})
+    for neg in ('A', 'LA', 'ULA', 'LLLLLLLLLA'):
+        for at in range(min(len(neg), 3)):
+            out.append({'mode': 'sl', 'tail': [1, 44], 'deny': DENY_REPLIES[0], 'retries': 12,
+                        'gen': ['word', neg, 'ALAUA', 'late', 2, 2, {'stall_neg': [at, 1.5]}]})
+    if tier == 'quick':
+        out = rng.sample(out, 260)
     return out
 
 
@@ -974,7 +1049,7 @@ def restart_scenarios(tier, rng):
                 for reboot in (None, 'nosl', 'deny', 'sl'):
                     for neg2 in ('A', 'LLA', 'U' * 10, 'L' * 10, 'UL' * 5):
                         for (w1, w2) in (('AA', 'AALA'), ('ALA', 'LAUA')):
-                            out.append({'mode': 'sl' if len(out) % 7 else 'nosl', 'tail': [1, 44], 'deny': DENY_REPLIES[len(out) % 3],
+                            out.append({'mode': 'sl' if len(out) % 7 else 'nosl', 'tail': TAILS[len(out) % 3], 'deny': DENY_REPLIES[len(out) % 3],
                                         'retries': 3 + len(out) % 2,
                                         'gen': ['restart', {'neg1': neg1, 'pause_at': pause_at, 'after': after, 'reboot': reboot,
                                                             'neg2': neg2, 'word1': w1, 'word2': w2, 'twice': len(out) % 5 == 0}]})
@@ -1022,7 +1097,7 @@ def random_scenarios(tier, rng):
         for j, at in enumerate(ats):
             plans[rng.randrange(nsend)].append([at, up_pk(j + 1)])
         cfq = [[at, dn_pk(j + 1)] for j, at in enumerate(sorted(rng.randrange(0, length - 1) for _ in range(ndown)))]
-        out.append({'mode': 'sl', 'tail': rng.choice([[1, 44], [], [1, 200]]), 'deny': DENY_REPLIES[0],
+        out.append({'mode': 'sl', 'tail': rng.choice([[1, 44], [], [1, 200], [1], [0, 9, 9]]), 'deny': DENY_REPLIES[0],
                     'retries': retries, 'seed': rng.randrange(1 << 30), 'retrybits': True,
                     'free': {'outcomes': outcomes, 'senders': plans, 'cfq': cfq, 'policy': 'random',
                              'rx_waits': rng.choice([[-1], [-1, 0.01, 0], [0.01], [0, -1]])}})
@@ -1057,7 +1132,7 @@ def materialize(sc):
         if g[0] == 'restart':
             sc['steps'] = GenDirector(restart_gen, g[1])
         else:
-            sc['steps'] = WordDirector(g[1], g[2], g[3], g[4], g[5])
+            sc['steps'] = WordDirector(g[1], g[2], g[3], g[4], g[5], g[6] if len(g) > 6 else None)
     return sc
 
 
@@ -1088,7 +1163,9 @@ def scenario_from_behaviour(beh):
     prev = st0
     for label, st in beh[1:]:
         name, args = tlc.parse_label(label)
-        if name in ('NegTx', 'DataTx'):
+        if name == 'DataTx':
+            steps.append(['tx', args[0], 1.5] if args[1] else ['tx', args[0]])
+        elif name == 'NegTx':
             steps.append(['tx', args[0]])
         elif name == 'InPut':
             steps.append(['in'])
@@ -1187,7 +1264,7 @@ def replayable(sc, meta):
 
 
 # --------------------------------------------------------------------------- the check
-BUGS = ['flip_up_on_lost', 'dequeue_on_lost', 'no_retry_reset', 'retry_off_by_one', 'sl_on_any_3_bytes',
+BUGS = ['rsp_timeout', 'flip_up_on_lost', 'dequeue_on_lost', 'no_retry_reset', 'retry_off_by_one', 'sl_on_any_3_bytes',
         'never_flip_down', 'never_needs_resending', 'nr_only_on_success']
 
 
@@ -1341,6 +1418,8 @@ def main(tier, seed, replay=None):
             ('modes', tlc.check, ('MC_Safelink.tla', 'MC_Safelink_modes.cfg'), dict(workers=4, timeout=1500)),
             ('restart', tlc.check, ('MC_Safelink.tla', 'MC_Safelink_restart.cfg' if tier == 'quick' else 'MC_Safelink_restart2.cfg'),
              dict(workers=4, timeout=3000))]
+    jobs.append(('bug:live_stats_crash', expect_temporal_violation,
+                 ('MC_Safelink.tla', 'MC_Safelink_bug_live_stats_crash.cfg'), dict(workers=2, timeout=1500)))
     if tier == 'thorough':
         jobs.append(('quick', tlc.check, ('MC_Safelink.tla', 'MC_Safelink_quick.cfg'), dict(workers=4, timeout=3000, coverage=True)))
         jobs.append(('live', tlc.check, ('MC_Safelink.tla', 'MC_Safelink_live.cfg'), dict(workers=4, timeout=3000)))
@@ -1401,7 +1480,10 @@ def main(tier, seed, replay=None):
     starts = startup_scenarios(tier, rng)
     counts = count_scenarios(tier)
     restarts = restart_scenarios(tier, rng)
-    check_blocks(out, words + starts + counts + restarts, 'outcome words + start-up + exact counts + pause/restart', stats)
+    acks = ack_scenarios(tier)
+    stalls = stall_scenarios(tier, rng)
+    check_blocks(out, words + starts + counts + restarts + acks + stalls,
+                 'outcome words + start-up + exact counts + pause/restart + ack alphabet + USB stalls', stats)
     nwords = len(words)
     lap('3a words/start-up/counts')
     rnd = random_scenarios(tier, rng)
@@ -1438,10 +1520,10 @@ def main(tier, seed, replay=None):
     out.rule = ('scenario = (peer kind, start-up outcome word, main-loop outcome word over {A,U,L}, submission pattern, '
                 'retries); ALL main-loop words of length <= %d (a word is followed by an all-A drain, so shorter words '
                 'ending in A are subsumed) at patterns eager/late%s [%d traces]; ALL start-up loss patterns (2^j, j<=10%s) '
-                'x peer kinds [%d]; %d exact-count scenarios (N = 1, 2, 3, 5, 17, default 100); %d pause()/restart() life cycles (pause point x outcomes while stopping x second start-up x peer reboot); %d TLC -simulate behaviours replayed; %d seeded random runs of 200-%d transmissions with '
+                'x peer kinds [%d]; %d exact-count scenarios (N = 1, 2, 3, 5, 17, default 100); %d pause()/restart() life cycles (pause point x outcomes while stopping x second start-up x peer reboot); %d ack-alphabet scenarios (empty acks of every length 1..32, downlink packets of length 1/2/3/32 on all 64 port/channel headers); %d scenarios with one dongle exchange of 1.2-1.9 s (every position of every word of length 5, start-up); %d TLC -simulate behaviours replayed; %d seeded random runs of 200-%d transmissions with '
                 'random thread schedules; %d runs with 2-3 links multiplexed over one dongle; link errors occurred in %d traces; '
                 '%d transmissions in total' %
-                (k, '/mid', nwords, ', sampled above 64 per j in quick' if tier == 'quick' else '', len(starts), len(counts), len(restarts), len(sims),
+                (k, '/mid', nwords, ', sampled above 64 per j in quick' if tier == 'quick' else '', len(starts), len(counts), len(restarts), len(acks), len(stalls), len(sims),
                  len(rnd), 600 if tier == 'quick' else 2000, len(duals), stats['errors'], stats['tx']))
     out.samples = stats['samples'][:6]
     out.extra['transmissions'] = stats['tx']
@@ -1450,6 +1532,7 @@ def main(tier, seed, replay=None):
     lap('3c multi-link')
     # 4. sensitivity: in-memory mutants of the driver must be rejected by the monitor
     sub = words[::max(1, len(words) // (240 if tier == 'quick' else 1500))] + starts[::max(1, len(starts) // (90 if tier == 'quick' else 300))] + rnd[:2]
+    sub += acks[::5] + stalls[::max(1, len(stalls) // 60)]
     sub += [sc for sc in restarts if sc['mode'] == 'sl' and sc['gen'][1]['neg1'] == 'A' and sc['gen'][1]['neg2'] != 'A'][:40]
     def _applicable(name):
         # a textual mutant whose snippet is gone from the tree under test is skipped, not an error
